@@ -18,6 +18,7 @@ package action
 
 import (
 	"fmt"
+	"net/url"
 	"os"
 	"path/filepath"
 	"strings"
@@ -131,6 +132,21 @@ func (p *Pull) Run(chartRef string) (string, error) {
 			return out.String(), err
 		}
 		chartRef = chartURL
+
+		// Only pass the user/pass on when the user has said to or when the
+		// location of the chart repo and the chart are the same scheme and host
+		// (the same rule ChartPathOptions.LocateChart applies).
+		u1, err := url.Parse(p.RepoURL)
+		if err != nil {
+			return out.String(), err
+		}
+		u2, err := url.Parse(chartURL)
+		if err != nil {
+			return out.String(), err
+		}
+		if !p.PassCredentialsAll && (u1.Scheme != u2.Scheme || u1.Host != u2.Host) {
+			c.Options = append(c.Options, getter.WithBasicAuth("", ""))
+		}
 	}
 
 	saved, v, err := c.DownloadTo(chartRef, p.Version, dest)
